@@ -72,8 +72,20 @@ def syntax_ok(sel):
     return bool(re.match(r"^([a-z0-9_-]{3,250}(\.(\[\d+\]|[a-z0-9_-]{1,250}))*|id)\Z", sel))
 
 
-def verdict(fn):
-    """'accepted' | 'refused' | 'no-verdict' (an unrelated documented refusal) ; other exceptions propagate"""
+def verdict(fn, part=None, case=None, eclass=None):
+    """'accepted' | 'refused' | 'no-verdict' (an unrelated documented refusal) | 'escaped' (an exception that is no refusal at all: reported, exploration continues)"""
+    try:
+        return _verdict(fn)
+    except Exception as e:
+        if part is None:
+            raise
+        part.outcome("entry-raised:" + type(e).__name__)
+        part.violation("C08/entry-raises/%s/%s" % (type(e).__name__, eclass), "an entry point answers a selectors argument with an exception that is neither acceptance nor an invalid-selector refusal",
+                       case, "accepted or InvalidSelectorError", "%s: %s" % (type(e).__name__, str(e)[:200]))
+        return "escaped", e
+
+
+def _verdict(fn):
     from stix2 import exceptions as X
     try:
         fn()
@@ -212,7 +224,7 @@ def explore(case, part, version, obj, dform, has_gm, versionable):
             part.evaluations += 1
             part.transitions += 1
             c = dict(case, selector=sel, entry=ename)
-            vd, err = verdict(lambda: call(sel))
+            vd, err = verdict(lambda: call(sel), part, c, eclass)
             part.outcome("valid:" + vd)
             if vd == "refused":
                 part.violation("C08/valid-selector-refused/%s/%s" % (fkey, eclass), "a selector that addresses an existing property / element / key is refused", c,
@@ -223,7 +235,7 @@ def explore(case, part, version, obj, dform, has_gm, versionable):
             for eclass, ename, call in ents:
                 part.evaluations += 1
                 part.transitions += 1
-                vd, err = verdict(lambda: call(nsel))
+                vd, err = verdict(lambda: call(nsel), part, dict(case, selector=nsel, entry=ename, derived_from=sel), eclass)
                 part.outcome("near-miss:" + vd)
                 if vd == "accepted":
                     part.violation("C08/invalid-selector-accepted/%s/%s" % (nkind, eclass), "a selector that addresses nothing is accepted", dict(case, selector=nsel, entry=ename, derived_from=sel),
@@ -233,7 +245,7 @@ def explore(case, part, version, obj, dform, has_gm, versionable):
                     for order, lst in (("valid-first", [sel, nsel]), ("invalid-first", [nsel, sel])):
                         part.evaluations += 1
                         part.transitions += 1
-                        vd2, err2 = verdict(lambda: call(lst))
+                        vd2, err2 = verdict(lambda: call(lst), part, dict(case, selector=nsel, entry=ename, derived_from=sel, list=lst), eclass)
                         part.outcome("near-miss-in-list:" + vd2)
                         if vd2 == "accepted":
                             part.violation("C08/invalid-selector-accepted/%s-in-list-%s/%s" % (nkind, order, eclass), "a selector list containing a selector that addresses nothing is accepted",
@@ -250,7 +262,7 @@ def empty_selectors(case, part, ents):
                 continue
             part.evaluations += 1
             part.transitions += 1
-            vd, err = verdict(lambda: call(Raw(copy.deepcopy(ev))))
+            vd, err = verdict(lambda: call(Raw(copy.deepcopy(ev))), part, dict(case, selector_form=elabel, entry=ename), eclass)
             part.outcome("empty-selectors:" + vd)
             if vd == "accepted":
                 part.violation("C08/invalid-selector-accepted/%s/%s" % (elabel, eclass), "an empty selectors argument is accepted", dict(case, selector_form=elabel, entry=ename), "refused", "accepted")
